@@ -117,6 +117,9 @@ def _impl_common(spec):
         return np.array(spec['values'], dtype=spec.get('dtype', 'float64'))
     if k == 'list':
         return list(spec['values'])
+    if k in ('float', 'int') and spec.get('np'):
+        # the scalar in another numeric type (numpy scalar of another width, 0-d array); values are exact in those types
+        return np.array(float(spec['value'])) if spec['np'] == '0d' else np.dtype(spec['np']).type(spec['value'])
     if k == 'float':
         return float(spec['value'])
     if k == 'int':
